@@ -29,13 +29,13 @@ type C07Case struct {
 }
 
 type C07Attempt struct {
-	Trusted    int   `json:"trusted"`     // index into the stored heights (mod), -1 => a height that is not stored
-	DH         int64 `json:"dh"`          // new height = trusted height + DH (may be <= 0)
-	TimeKind   int   `json:"time_kind"`   // 0 normal, 1 == trusted time, 2 trusted-1ns, 3 now+drift-1ns, 4 now+drift, 5 now+drift+1s
-	NowKind    int   `json:"now_kind"`    // 0 shortly after, 1 expiry-1ns (of the trusted state), 2 expiry, 3 expiry+1ns, 4 mid period, 5 expiry of the latest state -1ns / 6 at it
-	ValsKind   int   `json:"vals_kind"`   // 0 = the trusted next set, 1 rotated (one member replaced), 2 disjoint, 3 re-weighted
-	NextKind   int   `json:"next_kind"`   // next validator set of the new header: 0 same as its set, 1 rotated
-	SignKind   int   `json:"sign_kind"`   // which subset signs, see pickSigners
+	Trusted    int   `json:"trusted"`   // index into the stored heights (mod), -1 => a height that is not stored
+	DH         int64 `json:"dh"`        // new height = trusted height + DH (may be <= 0)
+	TimeKind   int   `json:"time_kind"` // 0 normal, 1 == trusted time, 2 trusted-1ns, 3 now+drift-1ns, 4 now+drift, 5 now+drift+1s
+	NowKind    int   `json:"now_kind"`  // 0 shortly after, 1 expiry-1ns (of the trusted state), 2 expiry, 3 expiry+1ns, 4 mid period, 5 expiry of the latest state -1ns / 6 at it
+	ValsKind   int   `json:"vals_kind"` // 0 = the trusted next set, 1 rotated (one member replaced), 2 disjoint, 3 re-weighted
+	NextKind   int   `json:"next_kind"` // next validator set of the new header: 0 same as its set, 1 rotated
+	SignKind   int   `json:"sign_kind"` // which subset signs, see pickSigners
 	SignArg    int   `json:"sign_arg"`
 	TrustVals  int   `json:"trust_vals"`  // 0 right set, 1 wrong set, 2 right set with one power changed
 	Revision   int   `json:"revision"`    // 0 same, 1 header chain-id of another revision, 2 trusted height with another revision
